@@ -6,7 +6,7 @@
 (* None of them is part of the VIEW.                                       *)
 EXTENDS Groups, Json
 
-CONSTANTS ConsumerSet, StreamSet, MaxParts, MaxOps, Coords, MaxDeletes, GetDs, MaxRestores
+CONSTANTS ConsumerSet, StreamSet, MaxParts, MaxOps, Coords, MaxDeletes, GetDs, MaxRestores, Shapes
 VARIABLES last, nOps, nDel, nRes, taint
 mcvars == <<vars, last, nOps, nDel, nRes, taint>>
 
@@ -14,6 +14,11 @@ Rep == CHOOSE v \in Servers : TRUE
 G == gs[Rep]
 Existing == {s \in StreamSet : Exists(s)}
 SeqOf(S) == SortedStreams(S)
+\* shape of the stream list of a request: "plain" = every name once; "dup" = the first name repeated at the end
+\* (["foo", "bar", "foo"]: a subscription is a SET of streams, whatever the list looks like); "empty" = an empty
+\* stream name appended (no such stream: the request is refused like any request naming a missing stream)
+ListOf(S, sh) == CASE sh = "dup" -> SeqOf(S) \o <<SeqOf(S)[1]>> [] sh = "empty" -> SeqOf(S) \o <<"">> [] OTHER -> SeqOf(S)
+NamesOf(S, sh) == IF sh = "empty" THEN S \cup {""} ELSE S
 
 Step(a) == /\ nOps < MaxOps /\ nOps' = nOps + 1 /\ last' = a
 
@@ -30,13 +35,13 @@ MCCreateStream(s, n) ==
 MCDeleteStream(s) ==
   /\ Exists(s) /\ nDel < MaxDeletes /\ DoDeleteStream(s)
   /\ Step([a |-> "DeleteStream", s |-> s]) /\ nDel' = nDel + 1 /\ UNCHANGED <<nRes, taint>>
-MCCreateGroup(c, S, coord) ==
-  /\ ~GroupExists /\ S # {} /\ DoProposeCreateGroup(c, S, coord)
-  /\ Step([a |-> "CreateGroup", c |-> c, streams |-> SeqOf(S), coord |-> coord])
+MCCreateGroup(c, S, coord, sh) ==
+  /\ ~GroupExists /\ S # {} /\ DoProposeCreateGroup(c, NamesOf(S, sh), coord)
+  /\ Step([a |-> "CreateGroup", c |-> c, streams |-> ListOf(S, sh), coord |-> coord])
   /\ UNCHANGED <<nDel, nRes, taint>>
-MCJoin(c, S) ==
-  /\ GroupExists /\ c \notin Members(G) /\ S # {} /\ DoProposeJoin(c, S)
-  /\ Step([a |-> "Join", c |-> c, streams |-> SeqOf(S)]) /\ UNCHANGED <<nDel, nRes, taint>>
+MCJoin(c, S, sh) ==
+  /\ GroupExists /\ c \notin Members(G) /\ S # {} /\ DoProposeJoin(c, NamesOf(S, sh))
+  /\ Step([a |-> "Join", c |-> c, streams |-> ListOf(S, sh)]) /\ UNCHANGED <<nDel, nRes, taint>>
 \* how = "leave" | "expire": an expiry is the coordinator's liveness timer
 \* proposing the same operation
 MCLeave(c, how) ==
@@ -62,8 +67,8 @@ MCGetAssignments(v, c, d) ==
 MCNext ==
   \/ \E s \in StreamSet, n \in 1..MaxParts : MCCreateStream(s, n)
   \/ \E s \in StreamSet : MCDeleteStream(s)
-  \/ \E c \in ConsumerSet, S \in SUBSET StreamSet, coord \in Coords : MCCreateGroup(c, S, coord)
-  \/ \E c \in ConsumerSet, S \in SUBSET StreamSet : MCJoin(c, S)
+  \/ \E c \in ConsumerSet, S \in SUBSET StreamSet, coord \in Coords, sh \in Shapes : MCCreateGroup(c, S, coord, sh)
+  \/ \E c \in ConsumerSet, S \in SUBSET StreamSet, sh \in Shapes : MCJoin(c, S, sh)
   \/ \E c \in ConsumerSet, how \in {"leave", "expire"} : MCLeave(c, how)
   \/ \E coord \in Coords : MCChangeCoordinator(coord)
   \/ \E v \in Servers, ord \in AllCPerms : MCRestore(v, ord)
@@ -75,6 +80,7 @@ StepOK ==
   LET a == last' IN
   CASE a.a = "GetAssignments" -> P_GetAssignments(a.srv, a.c, a.e)
     [] a.a = "Join" -> IF obs'.err = "precondition" THEN SameGroups ELSE P_Join(a.c, {a.streams[i] : i \in DOMAIN a.streams})
+                                 \* (a list with a repeated name subscribes to the SET of its names)
     [] a.a = "CreateGroup" -> IF obs'.err = "precondition" THEN SameGroups
                               ELSE \A v \in Servers : gs'[v].exists /\ Members(gs'[v]) = {a.c}
     [] a.a = "Leave" -> P_Leave(a.c)
